@@ -402,6 +402,12 @@ func (c *Variant) Assign(value *Variant) {
 	if value != nil {
 		c.typ = value.typ
 		c.value = value.value
+		// Keep an own copy of the list, as for a plain array
+		if a1, ok := value.value.([]*Variant); ok {
+			a2 := make([]*Variant, len(a1))
+			copy(a2, a1)
+			c.value = a2
+		}
 	} else {
 		c.typ = Null
 		c.value = nil
